@@ -404,7 +404,7 @@ FUNCS = [S, "similari::track::store::TrackStore::{new_track, foreign_track_dista
          "similari::trackers::visual_sort::track_attributes::VisualAttributes::{compatible, merge, update_history}", "similari::trackers::visual_sort::voting::VisualVoting::winners",
          "similari::track::voting::best::BestFitVoting::winners", "similari::trackers::sort::voting::SortVoting::winners", "similari::trackers::sort::SortTrack::from"]
 MIR = []
-for (nd, ns, tier, lite) in [(0, 1, 'quick', False), (1, 0, 'quick', False), (1, 1, 'quick', True), (1, 1, 'thorough', False), (2, 1, 'thorough', True), (1, 2, 'thorough', True)]:
+for (nd, ns, tier, lite) in [(0, 1, 'quick', False), (1, 0, 'quick', False), (1, 1, 'quick', True), (1, 1, 'thorough', False), (2, 1, 'deep', True), (1, 2, 'deep', True)]:   # deep: not finished within 3000 s
     MIR.append(MQ("step_visual_d%d_t%d%s" % (nd, ns, '_lite' if lite else ''), tier, mk_step(nd, ns, lite),
                   "one VisualSort::predict_with_scene call from an arbitrary valid tracker state: records echo the detections; attachment by appearance exactly under the use thresholds / collected "
                   "features / visual threshold / min votes, greatest weight wins, else positional maximum-weight fallback, else a new track; truthful voting type; galleries bounded; only this scene's epoch advances",
